@@ -1049,7 +1049,7 @@ func genHardening(g *core.Gen, r *core.Rand) {
 	for n := 1; n <= g.N(24, 70); n++ {
 		for w := 0; w <= 1; w++ {
 			txs := txsTok(leafList(r, n, r.Intn(2), 0, true))
-			for _, pre := range []int{-1, 0, n / 2, n - 1} {
+			for _, pre := range []int{-2, -1, 0, n / 2, n - 1} {
 				g.Case("merkle-from-bytes", n >= 2, fmt.Sprintf("C13 merkleb %d %d %s", w, pre, txs))
 			}
 		}
